@@ -842,6 +842,20 @@ def fake_states(hass):
     return table
 
 
+async def c16_virtual_field_shadow(w):
+    """An entity that has ATTRIBUTES named like the virtual fields (a group's entity_id list, a last_changed attribute): the
+    snapshot's entity_id / last_changed / last_updated / last_reported are still those of the state object."""
+    from custom_components.pyscript.state import State
+    hass = await boot_full()
+    table = fake_states(hass)
+    table["group.g"] = ("on", {"entity_id": ["light.a", "light.b"], "last_changed": "ATTR", "last_updated": "ATTR", "last_reported": "ATTR", "other": 1})
+    v = State.get("group.g")
+    got = {"entity_id": v.entity_id, "last_changed": v.last_changed, "last_updated": v.last_updated, "last_reported": v.last_reported, "other": v.other}
+    want = {"entity_id": "group.g", "last_changed": "lc", "last_updated": "lu", "last_reported": "lr", "other": 1}
+    await shutdown()
+    return {"reproduced": got != want, "observed": got, "expected": want}
+
+
 async def c16_state_set(w):
     """State.set on every argument-combination shape against a dictionary model of the state machine."""
     from homeassistant.core import Context
